@@ -187,12 +187,10 @@ theorem sep_zero_parents (batch : Nat) (st st' : SepState n) (sols : List (Vec n
 
 theorem lm_zero_parents (c : LmCfg) (st st' : LmState c.n) (sols zs : List (Vec c.n)) (perm : List Nat)
     (sup : LmSup) (d : Diag) (h : lmTell c st sols zs perm 0 sup = .ok (st', d)) :
-    st'.mean = st.mean ∧ st'.sigma = st.sigma ∧ st'.ps = st.ps ∧ st'.m = st.m
-      ∧ st'.gens = st.gens + 1 := by
+    st' = st := by
   unfold lmTell at h
   simp only [if_true, Except.ok.injEq, Prod.mk.injEq] at h
-  obtain ⟨rfl, _⟩ := h
-  simp
+  exact h.1.symm
 
 /-! ## T18.4 — the update reads the ranking order only
 
@@ -662,7 +660,7 @@ theorem sepTell_ok (batch : Nat) (st st' : SepState n) (sols : List (Vec n)) (pe
 /-- what a successful LM-MA-ES `tell` did -/
 theorem lmTell_ok (c : LmCfg) (st st' : LmState c.n) (sols zs : List (Vec c.n)) (perm : List Nat)
     (mu : Nat) (sup : LmSup) (d : Diag) (h : lmTell c st sols zs perm mu sup = .ok (st', d)) :
-    (mu = 0 ∧ st' = { st with gens := st.gens + 1 }) ∨
+    (mu = 0 ∧ st' = st) ∨
     (0 < mu ∧ ∃ rows zrows, ranked sols perm = .ok rows ∧ ranked zs perm = .ok zrows ∧
       mu ≤ rows.length ∧ mu ≤ zrows.length ∧ logsOk sup.lh sup.ls mu = true ∧
       (st', d) = lmCore c st (rows.take mu) (zrows.take mu) sup) := by
